@@ -397,7 +397,9 @@ func readAndJudge(data []byte, cores int, written []elem, index map[elemKey]int,
 
 const granularityDeg = 1e-7   // default granularity 100 nanodegrees (the writer never sets another one)
 const floatSlack = 1e-12      // float64 rounding of degrees*1e9 and back
-func coordOK(w, r float64) bool { return math.Abs(w-r) <= granularityDeg+floatSlack }
+// a written coordinate comes back as the NEAREST multiple of the granularity: half a step at most (a whole step was
+// accepted until the writer's truncation was found through C29's file-based ingest and repaired, /repo 96867ca)
+func coordOK(w, r float64) bool { return math.Abs(w-r) <= granularityDeg/2+floatSlack }
 
 func sameTags(a, b osm.Tags) bool {
 	if len(a) != len(b) {
